@@ -643,7 +643,7 @@ def health(m: Any, tier: str) -> Any:
         return f"only {m['classes'].get('collides-for-some-target', 0)}/{m['evaluations']} models collide for some target"
     missing = [k for k in c21_gen.SCOPE_KINDS if k not in ("constant-vs-function",)
                and m["classes"].get(f"kind-collides:{k}", 0) == 0]
-    if missing and tier == "thorough":
+    if missing and tier == "thorough" and m["evaluations"] >= 500:
         return f"no colliding model for the scope kinds {missing}"
     return None
 
